@@ -5,6 +5,11 @@ Proved (Props/C16.lean, about definitions regenerated from the source): unit/sca
 `_integrate_phi` and the tables of `_split_phi` / `_admix_*`, the final axis order, that every primitive logs exactly one
 export record with its own indices, end times, and that the export scalings invert the import conversion.
 
+Round 4 (graph level, harness/c16_graph.py + Driver/DemesGraph.lean): `DemesUtil.slice`, `_augment_with_ancient_samples`, the preparation in `SFS`,
+`_migration_rate_in_interval`, the epoch search and the frozen flags are translated statement by statement; proved: ancient sample = frozen branch
+(closed form), slicing shifts times and keeps sizes, both commute with the units, whole-graph invariance of rows / nu / events / calls, order of
+the sampled demes = final axis permutation, ancestor-order wiring for every arity.
+
 Here:
   K  — the generated formulas / tables vs the real functions: `_get_integration_parameters`, `_sizes_at_time`,
        `_make_nu_func` on random graphs (size expressions come back as terms, evaluated in IEEE arithmetic),
